@@ -26,8 +26,8 @@ use alloc::vec::Vec;
 use super::document::{DocumentFields, IndentSpec};
 use super::escape::{write_json_body_jq, write_json_body_yq};
 use super::value::{
-    assert_value_tree_depth, format_number_jq_compat, infinite_float_preview_text,
-    jq_bare_float_display, NumberRepr, OwnedValue,
+    assert_value_tree_depth, format_number_jq_compat, format_number_jq_compat_preview,
+    infinite_float_preview_text, jq_bare_float_display, NumberRepr, OwnedValue,
 };
 use crate::yaml::{format_float_with_fraction, format_float_yq_yaml, format_float_yq_yaml_nested};
 
@@ -244,7 +244,7 @@ pub fn stream_owned_value_json_jq<W: core::fmt::Write>(
         jq_bare_float_display,
         |negative| infinite_float_preview_text(negative).to_string(),
         preview_infinite_literal,
-        format_number_jq_compat,
+        format_number_jq_compat_preview,
     )
 }
 
